@@ -5,7 +5,7 @@
    Proofs: Proofs/C07W5.v, Proofs/C07Proofs.v. *)
 From Coq Require Import List ZArith Arith Bool.
 From PV Require Import Base.Index Base.Perm Np.NpZ Np.NpZ2 Np.NpZ3 Np.NpZ3b Gen.GenUtils Gen.GenUtils3b Np.Array Model.Sparse
-  Model.Repr Model.C07Ops Model.C07Ops2 Model.C07Gen Model.C07Req Model.C07W5 Proofs.C07Proofs Proofs.C07W5.
+  Model.Repr Model.C07Ops Model.C07Ops2 Model.C07Gen Model.C07Req Model.C07Impl Model.C07W5 Proofs.C07Proofs Proofs.C07Reshape Proofs.C07W5.
 Import ListNotations.
 
 Section C07w5.
@@ -30,6 +30,39 @@ Proof. exact (squeeze_dense_zero_mode v0). Qed.
 Theorem C07_squeeze_sizes_positive : forall (s : shape) (l : list nat), forallb (Nat.ltb 0) s = true -> sqn s l = sqz s l.
 Proof. exact (fun s l => sqn_sqz s l). Qed.
 
+(* ---------------- sptensor.squeeze as the property demands it on every shape (squeeze_sp_any; pyttb still tests `shape > 1`:
+   open finding N-C07-7, the sparse sibling of N-C07-6) *)
+Theorem C07_squeeze_sparse_any_shape : forall (isz : V -> bool) (S : sparse V),
+  Forall (fun j => inb (sshape S) j = true) (ssubs S) ->
+  match squeeze_sp_any v0 S with
+  | SqT R => sshape R = sqn (sshape S) (sshape S) /\ svals R = svals S /\ nnz R = nnz S /\
+             (wf_sp isz S -> wf_sp isz R) /\
+             (forall i, inb (sshape S) i = true ->
+                inb (sshape R) (sqn (sshape S) i) = true /\ den_sp v0 R (sqn (sshape S) i) = den_sp v0 S i)
+  | SqScalar v => sqn (sshape S) (sshape S) = [] /\ (forall i, inb (sshape S) i = true -> v = den_sp v0 S i)
+  end.
+Proof. exact (squeeze_sparse_any v0). Qed.
+
+Theorem C07_squeeze_sparse_positive_is_code : forall S : sparse V, forallb (Nat.ltb 0) (sshape S) = true ->
+  squeeze_sp_any v0 S = squeeze_sp v0 S.
+Proof. exact (squeeze_sp_any_pos v0). Qed.
+
+Theorem C07_squeeze_sparse_zero_mode : forall S : sparse V,
+  Forall (fun j => inb (sshape S) j = true) (ssubs S) -> In 0 (sshape S) ->
+  ssubs S = [] /\ exists R, squeeze_sp_any v0 S = SqT R /\ sshape R = sqn (sshape S) (sshape S) /\ In 0 (sshape R) /\ ssubs R = [].
+Proof. exact (squeeze_sparse_zero_mode v0). Qed.
+
+Theorem C07_repr_agree_squeeze_any_shape : forall (T : dense V) (S : sparse V), wf_dense T -> sshape S = dshape T ->
+  Forall (fun j => inb (sshape S) j = true) (ssubs S) ->
+  (forall i, inb (dshape T) i = true -> den_sp v0 S i = den_dense v0 T i) ->
+  match squeeze_d v0 T, squeeze_sp_any v0 S with
+  | SqT T', SqT S' => sshape S' = dshape T' /\
+       forall i, inb (dshape T) i = true -> den_sp v0 S' (sqn (dshape T) i) = den_dense v0 T' (sqn (dshape T) i)
+  | SqScalar a, SqScalar b => a = b
+  | _, _ => False
+  end.
+Proof. exact (squeeze_agree_any v0). Qed.
+
 (* ---------------- sptensor.reshape as written after b27c529 *)
 Theorem C07_reshape_sparse_code : forall (S : sparse V) (x : pyshp) (oldz : list Z), ok_store S -> oldz <> [] ->
   res_opt (reshape_sp_code S x (Some oldz)) = reshape_sp_req S x oldz.
@@ -47,11 +80,28 @@ Theorem C07_reshape_sparse_refuses_negative_size : forall (S : sparse V) x o nz 
   reshape_sp_code S x o = Err.
 Proof. exact reshape_sp_code_negative_size. Qed.
 
+Theorem C07_reshape_refuses_empty_target : forall (T : dense V) (S : sparse V) x oldz o, parse_shape x = Ok [] ->
+  reshape_d_req v0 T x = None /\ reshape_sp_all_req S x = None /\ reshape_sp_req S x oldz = None /\
+  reshape_sp_code S x o = Err.
+Proof. exact (reshape_empty_target_refused v0). Qed.
+
 Theorem C07_reshape_sparse_code_sound : forall (S : sparse V) x oldz R, ok_store S -> oldz <> [] ->
   reshape_sp_code S x (Some oldz) = Ok R ->
   exists old s', oldz = map Z.of_nat old /\ Forall (fun k => k < length (sshape S)) old /\
     parse_shape x = Ok (map Z.of_nat s') /\ reshape_sp S s' old = Some R.
 Proof. exact reshape_sp_code_sound. Qed.
+
+Theorem C07_reshape_sparse_code_law : forall (isz : V -> bool) (S : sparse V) x oldz R, ok_store S -> oldz <> [] -> NoDup oldz ->
+  reshape_sp_code S x (Some oldz) = Ok R ->
+  exists old s', oldz = map Z.of_nat old /\ parse_shape x = Ok (map Z.of_nat s') /\
+    let s := sshape S in
+    sshape R = pick 0 (keep_modes (length s) old) s ++ s' /\ svals R = svals S /\ nnz R = nnz S /\
+    (wf_sp isz S -> wf_sp isz R) /\
+    (forall i, inb s i = true -> inb (sshape R) (reshape_row s s' old i) = true /\
+                                 den_sp v0 R (reshape_row s s' old i) = den_sp v0 S i) /\
+    (forall j, den_sp v0 R j = if inb (sshape R) j then den_sp v0 S (unreshape_row s s' old j) else v0) /\
+    (forall i, inb s i = true -> unreshape_row s s' old (reshape_row s s' old i) = i).
+Proof. exact (reshape_sp_code_law v0). Qed.
 
 (* ---------------- boolean orders (N-C07-5 repaired) *)
 Theorem C07_bool_order_refused : forall (S : sparse V) (T : ttensor V) (Ts : sttensor V) x pz, bool_order_of x = Some pz ->
@@ -75,11 +125,17 @@ End C07w5.
 Print Assumptions C07_squeeze_dense_any_shape.
 Print Assumptions C07_squeeze_dense_zero_mode.
 Print Assumptions C07_squeeze_sizes_positive.
+Print Assumptions C07_squeeze_sparse_any_shape.
+Print Assumptions C07_squeeze_sparse_positive_is_code.
+Print Assumptions C07_squeeze_sparse_zero_mode.
+Print Assumptions C07_repr_agree_squeeze_any_shape.
 Print Assumptions C07_reshape_sparse_code.
 Print Assumptions C07_reshape_sparse_code_all_modes.
 Print Assumptions C07_reshape_sparse_refuses_bad_mode.
 Print Assumptions C07_reshape_sparse_refuses_negative_size.
+Print Assumptions C07_reshape_refuses_empty_target.
 Print Assumptions C07_reshape_sparse_code_sound.
+Print Assumptions C07_reshape_sparse_code_law.
 Print Assumptions C07_bool_order_refused.
 Print Assumptions C07_bool_order_dense.
 Print Assumptions C07_bool_order_kruskal.
@@ -95,6 +151,17 @@ Example C07_example_squeeze_zero_mode :
   squeeze_d 0%Z (mkDense [1; 1] [9%Z]) = SqScalar 9%Z.
 Proof. repeat split; reflexivity. Qed.
 
+Example C07_example_squeeze_sparse_zero_mode :
+  squeeze_sp_any 0%Z (mkSp [2; 0; 1] [] (@nil Z)) = SqT (mkSp [2; 0] [] []) /\
+  squeeze_sp_any 0%Z (mkSp [1; 0] [] (@nil Z)) = SqT (mkSp [0] [] []) /\
+  squeeze_sp_any 0%Z (mkSp [0] [] (@nil Z)) = SqT (mkSp [0] [] []) /\
+  squeeze_sp_any 0%Z (mkSp [2; 1; 3] [[1; 0; 2]] [4%Z]) = SqT (mkSp [2; 3] [[1; 2]] [4%Z]) /\
+  squeeze_sp_any 0%Z (mkSp [1; 1] [] (@nil Z)) = SqScalar 0%Z /\
+  (* the code as written (Model/C07Impl.v, `shape > 1`) drops the size-0 mode / answers with a scalar: N-C07-7 *)
+  squeeze_sp_impl 0%Z (mkSp [2; 0; 1] [] (@nil Z)) = Some (SqT (mkSp [2] [] [])) /\
+  squeeze_sp_impl 0%Z (mkSp [1; 0] [] (@nil Z)) = Some (SqScalar 0%Z).
+Proof. repeat split; reflexivity. Qed.
+
 Example C07_example_reshape_code :
   let S := mkSp [2; 3; 4] [[1; 2; 3]; [0; 1; 2]] [5; -7]%Z in
   (* modes (2, 0) folded with mode 2 fastest, into (4, 2): kept mode 1 first *)
@@ -104,7 +171,11 @@ Example C07_example_reshape_code :
   reshape_sp_code (mkSp [2; 3] [[0; 1]; [1; 2]] [5; 6]%Z) (STuple [EInt 3]) (Some [-1]%Z) = Err /\
   reshape_sp_code (mkSp [2; 3] [[0; 1]; [1; 2]] [5; 6]%Z) (STuple [EInt 3]) (Some [2]%Z) = Err /\
   reshape_sp_code (mkSp [2; 3] [] (@nil Z)) (STuple [EInt (-2); EInt (-3)]) None = Err /\
-  reshape_sp_code (mkSp [2; 3] [] (@nil Z)) (STuple [EInt 3; EInt 2]) None = Ok (mkSp [3; 2] [] []).
+  reshape_sp_code (mkSp [2; 3] [] (@nil Z)) (STuple [EInt 3; EInt 2]) None = Ok (mkSp [3; 2] [] []) /\
+  (* a target without modes: folding the singleton mode 0 of a 1 x 3 x 2 tensor away is refused *)
+  reshape_sp_code (mkSp [1; 3; 2] [[0; 1; 1]] [5%Z]) (STuple []) (Some [0%Z]) = Err /\
+  reshape_sp_req (mkSp [1; 3; 2] [[0; 1; 1]] [5%Z]) (STuple []) [0%Z] = None /\
+  reshape_d_req 0%Z (mkDense [1; 1] [9%Z]) (STuple []) = None.
 Proof. repeat split; reflexivity. Qed.
 
 Example C07_example_bool_orders :
